@@ -1,6 +1,7 @@
 //! vcore: shared machinery for the property checks of busstoptaktik/geodesy.
 pub mod engine;
 pub mod geo;
+pub mod gridctx;
 pub mod guard;
 pub mod refmath;
 
